@@ -58,7 +58,9 @@ type treeGen struct {
 	n  int
 }
 
-func (g *treeGen) pick(label string, xs []string) string { return rapid.SampledFrom(xs).Draw(g.rt, label) }
+func (g *treeGen) pick(label string, xs []string) string {
+	return rapid.SampledFrom(xs).Draw(g.rt, label)
+}
 
 // genFunc emits function <id>f<i>; it may call functions with larger indexes.
 func (g *treeGen) genFunc(i, total, depth int) {
@@ -67,7 +69,7 @@ func (g *treeGen) genFunc(i, total, depth int) {
 	nstmt := rapid.IntRange(1, 6).Draw(g.rt, "nstmt")
 	for s := 0; s < nstmt; s++ {
 		tag := fmt.Sprintf("%s.%d", name, s)
-		switch k := rapid.IntRange(0, 19).Draw(g.rt, "stmt"); k {
+		switch k := rapid.IntRange(0, 23).Draw(g.rt, "stmt"); k {
 		case 0, 1: // deferred call with arguments captured now
 			fmt.Fprintf(&g.sb, "\tdefer logi(\"%s defer-arg\", x)\n\tx += 7\n", tag)
 		case 2, 3, 4: // direct recover in a deferred closure
@@ -82,7 +84,11 @@ func (g *treeGen) genFunc(i, total, depth int) {
 			fmt.Fprintf(&g.sb, "\tdefer func() {\n\t\thelperRecover(\"%s\")\n\t}()\n", tag)
 		case 6: // deferred method value: counts as called directly
 			fmt.Fprintf(&g.sb, "\tdefer rec{\"%s\"}.recoverHere()\n", tag)
-		case 7: // a deferred function that panics itself
+		case 20: // a deferred function that suspends
+			fmt.Fprintf(&g.sb, "\tdefer func() {\n\t\truntime.Gosched()\n\t\tout(\"%s defer-yield\")\n\t}()\n", tag)
+		case 21: // a deferred function that suspends and then panics
+			fmt.Fprintf(&g.sb, "\tdefer func() {\n\t\truntime.Gosched()\n\t\tout(\"%s defer-yield-panics\")\n\t\tpanic(\"from-yield-defer-%s\")\n\t}()\n", tag, tag)
+		case 7, 22: // a deferred function that panics itself
 			fmt.Fprintf(&g.sb, "\tdefer func() {\n\t\tout(\"%s defer-panics\")\n\t\tpanic(\"from-defer-%s\")\n\t}()\n", tag, tag)
 		case 8: // inner panic recovered inside the deferred function
 			fmt.Fprintf(&g.sb, "\tdefer func() {\n\t\tdefer func() {\n\t\t\tout(\"%s inner \" + classify(recover()))\n\t\t}()\n\t\tpanic(\"inner-%s\")\n\t}()\n", tag, tag)
@@ -130,7 +136,7 @@ func genTree(rt *rapid.T, id string) (src string, entry string, feats map[string
 	for i := 0; i < total; i++ {
 		g.genFunc(i, total, 3)
 	}
-	mode := rapid.SampledFrom([]string{"plain", "plain", "plain", "guarded", "goroutine-uncaught", "main-goexit"}).Draw(rt, "mode")
+	mode := rapid.SampledFrom([]string{"plain", "plain", "plain", "guarded", "guarded-twice", "guarded-twice", "goroutine-uncaught", "main-goexit"}).Draw(rt, "mode")
 	entry = id + "main"
 	fmt.Fprintf(&g.sb, "func %s() {\n", entry)
 	switch mode {
@@ -138,6 +144,9 @@ func genTree(rt *rapid.T, id string) (src string, entry string, feats map[string
 		fmt.Fprintf(&g.sb, "\tout(\"result \" + itoa(%sf0()))\n", id)
 	case "guarded":
 		fmt.Fprintf(&g.sb, "\tdefer func() { out(\"main-recover \" + classify(recover())) }()\n\tout(\"result \" + itoa(%sf0()))\n", id)
+	case "guarded-twice":
+		// the same tree twice in one process: state left behind by the first run shows in the second
+		fmt.Fprintf(&g.sb, "\tfor round := 0; round < 2; round++ {\n\t\tfunc() {\n\t\t\tdefer func() { out(\"main-recover \" + classify(recover())) }()\n\t\t\tout(\"result \" + itoa(%sf0()))\n\t\t}()\n\t}\n", id)
 	case "goroutine-uncaught":
 		fmt.Fprintf(&g.sb, "\tgo func() { out(\"result \" + itoa(%sf0())) }()\n\t<-make(chan int)\n", id)
 	case "main-goexit":
@@ -146,7 +155,7 @@ func genTree(rt *rapid.T, id string) (src string, entry string, feats map[string
 	g.sb.WriteString("\tout(\"END\")\n}\n\n")
 	src = g.sb.String()
 	feats = map[string]bool{}
-	for _, k := range []string{"recover ", "deeper-recover", "method-recover", "defer-panics", "inner ", "defer-res", "goroutine-recover", "goexit", "loop-defer", "wrapper-recover", "panic(", "boom("} {
+	for _, k := range []string{"recover ", "deeper-recover", "method-recover", "defer-panics", "defer-yield", "inner ", "defer-res", "goroutine-recover", "goexit", "loop-defer", "wrapper-recover", "panic(", "boom("} {
 		if strings.Contains(src, k) {
 			feats[k] = true
 		}
